@@ -307,9 +307,22 @@ func (e *didEnv) monC11Genesis() {
 		docB := didtypes.NewDIDDocument(didB, didtypes.WithVerificationMethods([]*didtypes.VerificationMethod{vm}),
 			didtypes.WithAuthentications([]didtypes.VerificationRelationship{rel(vmID)}))
 		w := didtypes.NewDIDDocumentWithSeq(&docB, 0)
-		gs := didtypes.GenesisState{Documents: map[string]*didtypes.DIDDocumentWithSeq{
-			didtypes.GenesisDIDDocumentKey{DID: didA}.Marshal(): &w}}
-		if err := gs.Validate(); err != nil {
+		// together with tombstones of other DIDs (an exported long-lived chain has them); validation must refuse the
+		// foreign entry whatever order it visits the map in
+		docs := map[string]*didtypes.DIDDocumentWithSeq{didtypes.GenesisDIDDocumentKey{DID: didA}.Marshal(): &w}
+		for i := 0; i < 3; i++ {
+			kt := newDidKey(fmt.Sprintf("gen-tomb-%d", i))
+			tomb := didtypes.NewDIDDocumentWithSeq(&didtypes.DIDDocument{}, uint64(2+i))
+			docs[didtypes.GenesisDIDDocumentKey{DID: didtypes.NewDID(kt.pub)}.Marshal()] = &tomb
+		}
+		gs := didtypes.GenesisState{Documents: docs}
+		rejected := 0
+		for i := 0; i < 64; i++ {
+			if err := gs.Validate(); err != nil {
+				rejected++
+			}
+		}
+		if rejected == 64 {
 			return "pass #rejected-by-genesis-validation"
 		}
 		bz, err := e.c.App.AppCodec().MarshalJSON(&gs)
